@@ -106,3 +106,68 @@ func sensitivity(prop, repo, verif string) map[string]interface{} {
 		"detail": detail,
 	}
 }
+
+// mutantsFor re-analyses the independently written, confirmed mutants kept in
+// seeded/<id>/ whose target is prop: each patch is applied to a scratch copy
+// of the repository (never to the repository itself), analysed and removed.
+// Informational, like the sensitivity matrix.
+func mutantsFor(prop, repo, verif string) map[string]interface{} {
+	dirs, _ := filepath.Glob(filepath.Join(verif, "seeded", prop+"-m*"))
+	sort.Strings(dirs)
+	type res struct {
+		id, verdict, rules string
+	}
+	out := make([]res, len(dirs))
+	var wg sync.WaitGroup
+	sem := make(chan struct{}, 8)
+	for i, d := range dirs {
+		wg.Add(1)
+		sem <- struct{}{}
+		go func(i int, d string) {
+			defer wg.Done()
+			defer func() { <-sem }()
+			cmd := exec.Command(filepath.Join(verif, "evalmut.sh"), filepath.Join(d, "patch.diff"), filepath.Base(d))
+			cmd.Env = append(os.Environ(), "EVALMUT_MAX=40", "MAST_REPO="+repo)
+			o, _ := cmd.Output()
+			txt := string(o)
+			v := "missed"
+			switch {
+			case strings.Contains(txt, "DOES NOT APPLY"):
+				v = "n/a (patch no longer applies)"
+			case strings.Contains(txt, "DOES NOT COMPILE"):
+				v = "n/a (does not compile)"
+			case strings.Contains(txt, "== "+prop+": "):
+				v = "detected"
+			case strings.Contains(txt, "violation(s)"):
+				v = "detected for another property only"
+			}
+			rules := map[string]bool{}
+			for _, l := range strings.Split(txt, "\n") {
+				if strings.Contains(l, "rule=") {
+					rules[strings.Fields(strings.SplitN(l, "rule=", 2)[1])[0]] = true
+				}
+			}
+			var rs []string
+			for r := range rules {
+				rs = append(rs, r)
+			}
+			sort.Strings(rs)
+			out[i] = res{filepath.Base(d), v, strings.Join(rs, ",")}
+		}(i, d)
+	}
+	wg.Wait()
+	n := 0
+	var detail []map[string]string
+	for _, r := range out {
+		if r.verdict == "detected" {
+			n++
+		}
+		detail = append(detail, map[string]string{"mutant": r.id, "verdict": r.verdict, "rules_fired": r.rules})
+	}
+	return map[string]interface{}{
+		"what":     "independently written mutants of this property (sub-agents given only the property text), each confirmed to pass the suite and to break the property by a demonstration; patch applied to a scratch copy and analysed, never executed; informational",
+		"mutants":  len(out),
+		"detected": n,
+		"detail":   detail,
+	}
+}
